@@ -20,6 +20,14 @@ def _r(model, q):
     return fi, SymEval(model).run_function(fi)
 
 
+def normalize_expansion(model, recv, x, clip: bool, subtract_mean: bool):
+    """What `recv.normalize(x, clip=, subtract_mean=)` computes, written out: NormalizeVec.normalize evaluated under the two flags
+    with self and x substituted (a call site that spells the arithmetic out has exactly this value)."""
+    _, r = _r(model, "rl.NormalizeVec.normalize")
+    t = T.assume(T.assume(r.ret, S("clip"), clip), S("subtract_mean"), subtract_mean)
+    return T.subst(t, {S("self"): recv, S("x"): x})
+
+
 def _cancel_tanh(t):
     """Declared inverse pairs: tanh(arctanh(z)) == z and arctanh(tanh(y)) == y."""
     for _ in range(4):
@@ -265,6 +273,7 @@ def run(chk: Check, model):
         norm = [e for e in r.events if e.kind == "call" and e.name.endswith(".normalize")]
         it = [e for e in r.events if e.kind == "call" and e.name == "self._env.step"][0].term
         ok = len(norm) == 1 and norm[0].recv == new.term and norm[0].args == (T.mk_index(it, T.ONE),) and dict(norm[0].kwargs) == {"clip": T.TRUE, "subtract_mean": T.TRUE} and ret[1][1] == norm[0].term
+        ok = ok or (not norm and ret[1][1] == normalize_expansion(model, new.term, T.mk_index(it, T.ONE), True, True))
         chk.add("C19.moments", "obs step: normalised with the updated state (clip, subtract mean)", ok, "the returned observation must be new_state.normalize(obs, clip=True, subtract_mean=True)", chk.loc(fi))
         aux = [e for e in r.events if e.kind == "call" and e.name.endswith(".replace_aux") and e.args and e.args[0] == ("dict", ((T.const("norm_obs"), new.term),))]
         chk.add("C19.moments", "obs step: updated state stored", len(aux) == 1 and ret[1][0] == aux[0].term, "the updated statistics must be stored under aux['norm_obs'] of the returned state", chk.loc(fi))
@@ -301,6 +310,7 @@ def run(chk: Check, model):
         chk.add("C19.moments", "reward step: return estimate = old * gamma * (1 - done) + reward", f.get("return_val") == ret_val(it, r), f"return_val' = {T.show(f.get('return_val', T.NONE))[:200]}", chk.loc(fi))
         norm = [e for e in r.events if e.kind == "call" and e.name.endswith(".normalize")]
         ok = len(norm) == 1 and norm[0].recv == new.term and norm[0].args == (T.mk_index(it, T.const(2)),) and dict(norm[0].kwargs) == {"clip": T.TRUE, "subtract_mean": T.FALSE} and r.ret[1][2] == norm[0].term
+        ok = ok or (not norm and r.ret[1][2] == normalize_expansion(model, new.term, T.mk_index(it, T.const(2)), True, False))
         chk.add("C19.moments", "reward step: reward scaled with the updated state (clip, no mean subtraction)", ok, "the returned reward must be new_state.normalize(reward, clip=True, subtract_mean=False)", chk.loc(fi))
     fi, r = _r(model, "rl.NormalizeVec.normalize")
     ret = r.ret
